@@ -266,6 +266,14 @@ def gen_site(rng, boom_ok=False):
             lambda: f"{e}.hits[0].value + {v()} + {e}.hits[1].slice",
             lambda: f"[{j}.trk.attr + {e}.hit.ctx + {v()} for {j} in {e}.jets]",
         ]
+        # a lambda called on the spot with a captured value, whose parameter name is bound
+        # again further in (the library resolves such calls while it captures)
+        forms += [
+            lambda: f"(lambda {k}: {e}.jets.Select(lambda {k}: {k}.pt))({v()})",
+            lambda: f"(lambda {k}: [{k}.pt + {v()} for {k} in {e}.jets])({v()})",
+            lambda: f"(lambda {k}: {k})({v()}) + {e}.a",
+            lambda: f"(lambda {k}: {e}.jets.Select(lambda {j}: {j}.pt + {k}))({v()})",
+        ]
         # nested lambdas whose parameter is positional-only or a *args tuple
         forms += [
             lambda: f"{e}.jets.Select(lambda {j}, /: {j}.pt + {v()})",
@@ -857,6 +865,7 @@ class Forest:
             except Exception:  # a block that cannot be evaluated: the back end's problem
                 self.stat("backend_helper_raised")
             if call["backend"] == "passes":
+                rec["ast"] = le.plain_copy(a)  # what was received, before this executor edits it
                 # ... and, like the real back ends, the library's transformation passes (which
                 # are ast.NodeTransformers: they rewrite the nodes they are given)
                 from func_adl.ast import aggregate_node_transformer
@@ -864,7 +873,11 @@ class Forest:
                 from func_adl.ast.function_simplifier import simplify_chained_calls
 
                 try:
-                    simplify_chained_calls().visit(aggregate_node_transformer().visit(to_calls(a)))
+                    b = aggregate_node_transformer().visit(to_calls(a))
+                    # fusing a long chain can take time exponential in its length (each fusion
+                    # duplicates the inner lambda per use of the parameter): short chains only
+                    if len(chain_lambdas(b)) <= 6:
+                        simplify_chained_calls().visit(b)
                 except Exception:
                     self.stat("backend_helper_raised")
         if call.get("interrupt") and not call.get("interrupt_sent"):
